@@ -5,6 +5,12 @@ import Proofs.DasTotal
 import Proofs.DasIds
 import Proofs.DasCanon
 import Proofs.DasSrc
+import Proofs.DasNumber
+import Proofs.DasSplit
+import Proofs.DasExpect
+import Proofs.DasNested
+import Proofs.DasCanonGuard
+import Proofs.DasMixed
 /-!
   C08 — attributes survive the DAS.  Model: `PydapModel/DasText.lean` (follows parsers/das.py and
   responses/das.py *after* the three fixes: `float()` under Float32/Float64; size-0 values skipped everywhere;
@@ -23,8 +29,17 @@ import Proofs.DasSrc
       `C08_memo_second_opening`, `C08_memo_refuted`, and the client over histories of openings: `C08_history_roundtrip`;
     * value / attribute-line level and the single decisions of `add_attributes` (`C08_value_roundtrip`,
       `C08_roundtrip_line_*`, `C08_foreign_line`, `C08_placement_flat/_nested/_both/_keep/_none/_global`).
-  Not ∀-theorems (see design_notes/C08.md for the precise reasons): whole-tree texts mixing flat and nested containers
-  for one subtree (the single visit is `C08_placement_both`), white space before `,`/`;` after a number token (its value
+    * round 7 (theorem audit, table at the top of design_notes/C08.md): `C08_number_tokens` (every token of the grammar
+      `'%.6g'` prints is classified back to its Python type: the `convert` hypothesis inside `ScalarOk` is discharged for
+      the grammar), `C08_domain` / `C08_roundtrip_domain` (the property's quantifier written syntactically), `C08_id_split`
+      (the id path is `var.id.split(".")`), `C08_expected_var` / `C08_expected_global` (the outcome read as lookups).
+      True by construction of the model, hence carried by the correspondence only: `C08_history_roundtrip`,
+      `C08_attach_total`, `C08_memo_*`.
+    * round 7b: `C08_foreign_nested` / `_nested_text` / `_nested_pure` / `C08_nested_lookup` / `C08_foreign_nested_refuted`
+      (nested foreign style in GENERAL position: any order, any subset, strangers anywhere), `C08_foreign_mixed` / `_mixed_text`
+      / `_mixed_total` / `C08_mixed_lookup` (flat and nested containers mixed over a whole tree; `_total`: no guard on the dataset's name), `C08_ids_once` (every id exactly once),
+      `C08_roundtrip_canon_ds` (normal-form round trip with guards on the dataset itself).
+  Not ∀-theorems (see design_notes/C08.md for the precise reasons): white space before `,`/`;` after a number token (its value
   is Python's `literal_eval`), parser error outcomes.
 -/
 namespace Pydap.C08
@@ -524,6 +539,314 @@ set_option maxRecDepth 200000 in
 example : (roundTrip ⟨"d".toList, [], [Var.mk .struct "s".toList [("t".toList, .sc (.num "7".toList false))]
       [Var.mk .base "t".toList [] []]]⟩)
     = some (.ok ⟨[], [(["s".toList, "t".toList], []), (["s".toList], [])]⟩) := rfl
+
+/-! ### round 7 (theorem audit): the domain stated syntactically, the id as `split(".")` -/
+
+/-- **number tokens are classified back to their Python type — for every token of the printed grammar.**  `ScalarOk` of a
+    number contains the hypothesis `convert ty tok = ok (num tok f)`; up to round 6 it was discharged on samples only.
+    Here: every int token (optional `-`, decimal digits without a superfluous leading zero — any number of digits, so the
+    property's "up to 6" is inside) under a declared type that is neither a string nor a float type comes back as the
+    same token with Python type int; every float token `'%.6g'` can print (`1`, `-0`, `2.5`, `0.0001`, `1e+06`,
+    `-1.23457e-07`, `nan`, `inf`, `-inf`) under Float32/Float64 comes back as the same token with type float.  The
+    grammar (`IntShape`, `FloatShape`: existential decompositions) is independent of the classifier `literalEval`. -/
+theorem C08_number_tokens (ty t : Text) (hs : strTypes.contains (lower ty) = false) :
+    (IntShape t → floatTypes.contains (lower ty) = false → ScalarOk ty (.num t false)) ∧
+    (FloatShape t → floatTypes.contains (lower ty) = true → ScalarOk ty (.num t true)) :=
+  ⟨fun h hf => scalarOk_int ty t hs hf h, fun h hf => scalarOk_float ty t hs hf h⟩
+
+/-- **the property's quantifier, syntactically, is inside the theorems' domain**: attribute maps made of strings without
+    `"` and `\`, int tokens, `%.6g` float tokens (NaN, ±inf), homogeneous lists (all strings / all floats / all ints, any
+    length) and nested dicts, on any tree of Structures, Sequences, Grids and Base variables, satisfy `DsOk`. -/
+theorem C08_domain (ds : Dataset) (h : DsDom ds) : DsOk ds := dsDom_ok ds h
+
+/-- **whole-dataset round trip over the syntactic domain** (replaces the reading "`DsOk` = the DAS-safe domain" by a
+    theorem): no hypothesis mentions the parser any more.  Guards as in `C08_roundtrip_partial` / `_canon`. -/
+theorem C08_roundtrip_domain (ds : Dataset) (hd : DsDom ds) :
+    (Guard ds → roundTrip ds = some (.ok (expected ds))) ∧
+    (Guard (canonDs ds) → roundTrip ds = some (.ok (expected (canonDs ds)))) :=
+  ⟨C08_roundtrip_partial ds (dsDom_ok ds hd), C08_roundtrip_canon ds (dsDom_ok ds hd)⟩
+
+/-- **the id path is `var.id.split(".")`**: the model's `attachStep` is given the path of names and uses `dotted p`
+    (= `var.id`) as the flat key; for dot-free names (`_quote` turns `.` into `%2E`) splitting the id gives the path
+    back, so `p.dropLast` / `p.getLast?` are the code's `id.split(".")[:-1]` / `[-1]`. -/
+theorem C08_id_split (p : List Text) (hne : p ≠ []) (hp : ∀ n ∈ p, '.' ∉ n) : splitDot (dotted p) = p :=
+  splitDot_dotted p hne hp
+
+-- non-vacuity: shapes have inhabitants (the tokens `%.6g` prints for -5, 100000, 1.0, 2.5, 1e-07, 1234567.0)
+example : IntShape "-5".toList := ⟨['-'], ['5'], rfl, Or.inr rfl, '5', [], rfl, by decide, by simp [DigitRun], by decide⟩
+example : IntShape "100000".toList :=
+  ⟨[], "100000".toList, rfl, Or.inl rfl, '1', "00000".toList, rfl, by decide, by unfold DigitRun; decide, by decide⟩
+example : FloatShape "1".toList :=
+  Or.inl ⟨[], ['1'], [], [], rfl, Or.inl rfl, ⟨'1', [], rfl, by decide, by simp [DigitRun], by decide⟩, Or.inl rfl, Or.inl rfl⟩
+example : FloatShape "-2.5".toList :=
+  Or.inl ⟨['-'], ['2'], ['.', '5'], [], rfl, Or.inr rfl, ⟨'2', [], rfl, by decide, by simp [DigitRun], by decide⟩,
+    Or.inr ⟨'5', [], rfl, by decide, by simp [DigitRun]⟩, Or.inl rfl⟩
+example : FloatShape "1.23457e+06".toList :=
+  Or.inl ⟨[], ['1'], ".23457".toList, "e+06".toList, rfl, Or.inl rfl, ⟨'1', [], rfl, by decide, by simp [DigitRun], by decide⟩,
+    Or.inr ⟨'2', "3457".toList, rfl, by decide, by unfold DigitRun; decide⟩,
+    Or.inr ⟨'+', '0', ['6'], rfl, Or.inl rfl, by decide, by unfold DigitRun; decide⟩⟩
+example : FloatShape "nan".toList ∧ FloatShape "-inf".toList := ⟨Or.inr (Or.inl rfl), Or.inr (Or.inr (Or.inr rfl))⟩
+-- the grammar is not the classifier: `007` and `1.` are classified (bad / float) but are no shapes `%.6g` prints; and a
+-- shape is what the theorem needs, e.g. under Int16 and FLOAT32
+example : ScalarOk "Int16".toList (.num "-5".toList false) :=
+  (C08_number_tokens _ _ rfl).1 ⟨['-'], ['5'], rfl, Or.inr rfl, '5', [], rfl, by decide, by simp [DigitRun], by decide⟩ rfl
+-- the syntactic domain: the dataset of the whole-text example is in it
+example : DsDom exSmall := by
+  refine ⟨⟨nameOk_title, by unfold ValDom ScalarDom SafeStr; decide, trivial⟩, ?_, trivial⟩
+  show NameOk "s".toList ∧ AttrsDom [("u".toList, .sc (.num "1".toList true))] ∧ VarsDom [_]
+  refine ⟨nameOk_s, ⟨nameOk_u, ?_, trivial⟩, ⟨nameOk_a, nameOk_l, ?_, trivial⟩, trivial⟩
+  · exact Or.inl ⟨[], ['1'], [], [], rfl, Or.inl rfl, ⟨'1', [], rfl, by decide, by simp [DigitRun], by decide⟩, Or.inl rfl, Or.inl rfl⟩
+  · refine ⟨?_, Or.inr (Or.inr (by decide))⟩
+    intro x hx
+    simp at hx
+    rcases hx with rfl | rfl
+    · exact ⟨[], ['1'], rfl, Or.inl rfl, '1', [], rfl, by decide, by simp [DigitRun], by decide⟩
+    · exact ⟨[], ['2'], rfl, Or.inl rfl, '2', [], rfl, by decide, by simp [DigitRun], by decide⟩
+example : splitDot "s.t.b".toList = ["s".toList, "t".toList, "b".toList] := by decide
+example : splitDot (dotted ["s".toList, "a".toList]) = ["s".toList, "a".toList] :=
+  C08_id_split _ (by simp) (by decide)
+
+/-! ### round 7: what `expected ds` says, as lookups (the property's "found on the same variables", "become global") -/
+
+/-- **same variables**: in the outcome of the round-trip theorems every variable of a node is listed under its own name
+    with exactly its own attribute map (key order), what is listed below a Structure / Sequence is listed under the
+    parent's name (so, by induction, every variable at any depth under its id path), and the members of a Grid hold
+    nothing.  (`expectVars` used to be readable only as a definition.) -/
+theorem C08_expected_var (cs : List Var) (v : Var) (hv : v ∈ cs) :
+    ([v.name], sortKeys v.attrs) ∈ expectVars cs
+    ∧ (v.kind = .struct ∨ v.kind = .seq → ∀ q d, (q, d) ∈ expectVars v.children → (v.name :: q, d) ∈ expectVars cs)
+    ∧ (v.kind = .grid → ∀ m ∈ v.children, ([v.name, m.name], []) ∈ expectVars cs) :=
+  ⟨expected_own cs v hv, fun hk q d h => expected_sub cs v hv hk q d h,
+   fun hk m hm => expected_member cs v m hv hk hm⟩
+
+/-- **globals, as lookups in the client's `dataset.attributes`**: a plain attribute of the dataset (anything but a
+    dict-valued NC_GLOBAL/DODS_EXTRA; a stranger container included) is found under its name with its value; an entry of a
+    dict-valued NC_GLOBAL / DODS_EXTRA is found under its own name when the name is defined only there. -/
+theorem C08_expected_global (ds : Dataset) (hnd : (keys ds.attrs).Nodup) :
+    (∀ k v, dget ds.attrs k = some v → isGlobalDict (k, v) = false → dget (expected ds).globals k = some v)
+    ∧ (∀ g e k v, g ∈ globalNames → (g, AVal.dict e) ∈ ds.attrs → (keys e).Nodup → dget e k = some v →
+        k ∉ keys ds.attrs →
+        (∀ g' e', (g', AVal.dict e') ∈ ds.attrs → g' ∈ globalNames → g' ≠ g → k ∉ keys e') →
+        dget (expected ds).globals k = some v) :=
+  ⟨fun k v h hp => expected_global_plain ds hnd k v h hp,
+   fun g e k v hg hm he hk hp ho => expected_global_merged ds hnd g e k v hg hm he hk hp ho⟩
+
+-- non-vacuity on `exDs` (global `title`, container NC_GLOBAL {n: 3}, Structure `s` with member `a`, Grid `g` with `arr`)
+example : dget (expected exDs).globals "title".toList = some (.sc (.str "t; {x}".toList)) :=
+  (C08_expected_global exDs (by decide)).1 _ _ rfl rfl
+example : dget (expected exDs).globals "n".toList = some (.sc (.num "3".toList false)) :=
+  (C08_expected_global exDs (by decide)).2 "NC_GLOBAL".toList _ "n".toList _ (by decide)
+    (List.Mem.tail _ (List.Mem.head _)) (by decide) rfl (by decide)
+    (by
+      intro g' e' hm hg hne
+      rcases List.mem_cons.mp hm with h | h
+      · cases h
+      · rcases List.mem_cons.mp h with h | h
+        · injection h with h1 _; exact absurd h1 hne
+        · cases h)
+example : (["s".toList, "a".toList], sortKeys [("l".toList, AVal.list [.num "1".toList false, .num "2".toList false]),
+      ("m".toList, .dict [("k".toList, .sc (.str [])), ("e".toList, .dict [])])]) ∈ expectVars exDs.children :=
+  (C08_expected_var exDs.children _ (List.Mem.head _)).2.1 (Or.inl rfl) _ _
+    (C08_expected_var _ _ (List.Mem.head _)).1
+example : (["g".toList, "arr".toList], []) ∈ expectVars exDs.children :=
+  (C08_expected_var exDs.children _ (List.Mem.tail _ (List.Mem.head _))).2.2 rfl _ (List.Mem.head _)
+
+/-! ### round 7b: nested foreign style in GENERAL POSITION; exactly-once -/
+
+/-- **nested style, whole tree, any parsed dict**: containers in any order, for any subset of the variables at any depth
+    (Grid members included), NC_GLOBAL/DODS_EXTRA before or after the variables, strangers (containers or plain entries)
+    anywhere at any level.  Every variable holds exactly the entries of the container its nested path spells in the text —
+    minus the containers its own children take — or nothing (with its whole subtree) when there is no such container
+    (`heldVars`, read as lookups by `C08_nested_lookup`); what is left at the top level (`stripKids`: everything except the
+    containers the top-level variables took) becomes global on top of the merged dict-valued NC_GLOBAL/DODS_EXTRA.
+    Guards, exactly: sibling names distinct at every level (Python's containers enforce it); no CONTAINER under the dotted id
+    of a variable below the top level (`hflat`: otherwise that variable also takes the flat one — necessary, see
+    `C08_foreign_nested_refuted`; the single visit is `C08_placement_both`); no leftover container named like the dataset. -/
+theorem C08_foreign_nested (name : Text) (cs : List Var) (A : Dict)
+    (hd : VarsDistinct cs) (hn : (cs.map Var.name).Nodup)
+    (hflat : ∀ p ∈ visitIds cs, p.length ≠ 1 → ∀ e, dget (A.filter notGlobal) (dotted p) ≠ some (.dict e))
+    (hself : ∀ e, dget (stripKids (A.filter notGlobal) cs) name ≠ some (.dict e)) :
+    addAttributes name cs A = .ok (nestedExpected cs A) :=
+  nested_attach name cs A hd hn hflat hself
+
+/-- **nested style, from the text** (parse + attach composed): any foreign-layout text (`C08_foreign_layout`) -/
+theorem C08_foreign_nested_text (name : Text) (cs : List Var) (kw w0 w1 : Text) (its : List FItem) (trail : Text)
+    (hkw : lower kw = "attributes".toList) (h0 : Ws w0) (h1 : Ws w1) (hok : FItemsOk its)
+    (hd : VarsDistinct cs) (hn : (cs.map Var.name).Nodup)
+    (hflat : ∀ p ∈ visitIds cs, p.length ≠ 1 →
+      ∀ e, dget ((denoteItems [] (eraseItems its)).filter notGlobal) (dotted p) ≠ some (.dict e))
+    (hself : ∀ e, dget (stripKids ((denoteItems [] (eraseItems its)).filter notGlobal) cs) name ≠ some (.dict e)) :
+    (dasParse (ftext kw w0 w1 its trail)).toOption.map (addAttributes name cs)
+      = some (.ok (nestedExpected cs (denoteItems [] (eraseItems its)))) := by
+  rw [fparse kw w0 w1 its trail hkw h0 h1 hok]
+  simp [Except.toOption, nested_attach name cs _ hd hn hflat hself]
+
+/-- **nested style, purely nested text**: when no top-level name of the DAS contains a dot the flat guard holds by itself —
+    only "sibling names distinct" and "no leftover container named like the dataset" remain. -/
+theorem C08_foreign_nested_pure (name : Text) (cs : List Var) (A : Dict)
+    (hd : VarsDistinct cs) (hn : (cs.map Var.name).Nodup) (hdot : NoDot (keys (A.filter notGlobal)))
+    (hself : ∀ e, dget (stripKids (A.filter notGlobal) cs) name ≠ some (.dict e)) :
+    addAttributes name cs A = .ok (nestedExpected cs A) :=
+  nested_attach name cs A hd hn (hflat_of_nodot cs _ hdot) hself
+
+example : NoDot (keys (exNestedA.filter notGlobal)) := by unfold NoDot; decide
+
+/-- **the outcome of the nested theorem, as lookups** (N = the container of the parent as the text wrote it; at the top
+    level the parsed dict without the dict-valued NC_GLOBAL/DODS_EXTRA): a variable with a container under its name holds
+    that container minus its children's containers, and its children are looked up inside it; a variable without one
+    holds nothing, nor does anything below it; in what is left (`stripKids`: the globals at the top level, the variable's
+    own attributes below) a name that is no child keeps its entry, a plain entry keeps its place even when named like a
+    child, and the container a child took is gone. -/
+theorem C08_nested_lookup (N : Dict) (cs : List Var) :
+    (∀ v ∈ cs, ∀ E, dget N v.name = some (.dict E) →
+        ([v.name], dupdate [] (stripKids E v.children)) ∈ heldVars N cs
+        ∧ ∀ q d, (q, d) ∈ heldVars E v.children → (v.name :: q, d) ∈ heldVars N cs)
+    ∧ (∀ v ∈ cs, (∀ E, dget N v.name ≠ some (.dict E)) →
+        ([v.name], []) ∈ heldVars N cs ∧ ∀ p ∈ walkVars [] v.children, (v.name :: p, []) ∈ heldVars N cs)
+    ∧ (∀ k, k ∉ cs.map Var.name → dget (stripKids N cs) k = dget N k)
+    ∧ (∀ k, (∀ E, dget N k ≠ some (.dict E)) → dget (stripKids N cs) k = dget N k)
+    ∧ (∀ k E, k ∈ cs.map Var.name → dget N k = some (.dict E) → dget (stripKids N cs) k = none) :=
+  ⟨fun v hv E h => held_some N cs v hv E h, fun v hv h => held_none N cs v hv h,
+   fun k h => strip_other N cs k h, fun k h => strip_plain N cs k h, fun k E hk h => strip_child N cs k E hk h⟩
+
+/-- **exactly once**: whatever the parsed dict, `add_attributes` reports every variable id exactly once, in visiting
+    order — so "found on the same variables" is a function of the id; for a served dataset the id texts of
+    `expected ds` are pairwise distinct (from distinct, dot-free sibling names), and the nested outcome lists the same ids. -/
+theorem C08_ids_once :
+    (∀ name cs A r, addAttributes name cs A = .ok r → r.vars.map (·.1) = visitIds cs)
+    ∧ (∀ ds, DsG ds → (expected ds).vars.map (·.1) = visitIds ds.children)
+    ∧ (∀ ds, DsG ds → VarsNames ds.children → ((expected ds).vars.map fun pd => dotted pd.1).Nodup)
+    ∧ (∀ N cs, VarsDistinct cs → (cs.map Var.name).Nodup → (heldVars N cs).map (·.1) = visitIds cs) :=
+  ⟨addAttributes_ids, expected_ids, expected_ids_nodup, heldVars_ids⟩
+
+-- non-vacuity of `C08_foreign_nested`: the guards hold on `exNestedA`, and the outcome is the one the text spells
+example : addAttributes "d".toList exTmpl exNestedA = .ok (nestedExpected exTmpl exNestedA) :=
+  C08_foreign_nested _ _ _ exTmpl_distinct.1 exTmpl_distinct.2 exNestedA_flat
+    (by intro e he
+        have : dget (stripKids (exNestedA.filter notGlobal) exTmpl) "d".toList = none := rfl
+        rw [this] at he; cases he)
+example : nestedExpected exTmpl exNestedA =
+    ⟨[("n".toList, .sc (.num "3".toList false)),
+      ("HDF_GLOBAL".toList, .dict [("k".toList, .sc (.str "v".toList))]),
+      ("title".toList, .sc (.str "hi".toList))],
+     [(["b".toList], [("u".toList, .sc (.num "1".toList false))]),
+      (["s".toList, "a".toList], [("x".toList, .sc (.num "1.0".toList true))]),
+      (["s".toList], [("zz".toList, .dict [("w".toList, .sc (.str "q".toList))]), ("t".toList, .sc (.num "7".toList false))])]⟩ := by
+  rfl
+
+set_option maxRecDepth 200000 in
+/-- from a text in another server's order: `b` before `s`, NC_GLOBAL between the variables, a stranger inside `s` -/
+example : (dasParse "Attributes{b {Int16 u 1;} NC_GLOBAL {Int32 n 3;} s {zz {} a {Byte x 1;}}}".toList).toOption.map
+      (addAttributes "d".toList exTmpl) = some (.ok
+    ⟨[("n".toList, .sc (.num "3".toList false))],
+     [(["b".toList], [("u".toList, .sc (.num "1".toList false))]),
+      (["s".toList, "a".toList], [("x".toList, .sc (.num "1".toList false))]),
+      (["s".toList], [("zz".toList, .dict [])])]⟩) := rfl
+
+/-- **the flat guard of the nested theorem is necessary**: with a container `s.a { … }` next to `s { a { … } }` the
+    variable `s.a` takes both, so the outcome is not the nested one. -/
+theorem C08_foreign_nested_refuted :
+    ¬ (∀ (name : Text) (cs : List Var) (A : Dict), VarsDistinct cs → (cs.map Var.name).Nodup →
+        (∀ e, dget (stripKids (A.filter notGlobal) cs) name ≠ some (.dict e)) →
+        addAttributes name cs A = .ok (nestedExpected cs A)) := by
+  intro h
+  have h1 := h "d".toList exTmpl
+    [("s".toList, .dict [("a".toList, .dict [("x".toList, .sc (.num "1".toList false))])]),
+     ("s.a".toList, .dict [("y".toList, .sc (.num "2".toList false))])]
+    exTmpl_distinct.1 exTmpl_distinct.2
+    (by intro e he
+        have : dget (stripKids (([("s".toList, AVal.dict [("a".toList, .dict [("x".toList, .sc (.num "1".toList false))])]),
+          ("s.a".toList, .dict [("y".toList, .sc (.num "2".toList false))])] : Dict).filter notGlobal) exTmpl) "d".toList = none := rfl
+        rw [this] at he; cases he)
+  have h2 := congrArg (fun r : Except AErr Attached => match r with
+    | .ok a => a.vars.map (fun pd : List Text × Dict => pd.2.length) | .error _ => []) h1
+  revert h2
+  decide
+
+/-- **whole-dataset round trip over the WHOLE DAS-safe domain, guards on the dataset itself** (strengthens
+    `C08_roundtrip_canon`, whose guard was a hypothesis on `canonDs ds`): lists of any length anywhere, the collision guard
+    `DsG ds` and distinct keys inside dict-valued attributes (`AttrsKeys`/`VarsKeys`: Python's dicts) — the client holds
+    exactly the normal form.  (`DsG` survives the normal form: `dsG_canon`; after it every list has two or more values.) -/
+theorem C08_roundtrip_canon_ds (ds : Dataset) (hok : DsOk ds) (hg : DsG ds) (ha : AttrsKeys ds.attrs)
+    (hv : VarsKeys ds.children) : roundTrip ds = some (.ok (expected (canonDs ds))) :=
+  C08_roundtrip_canon ds hok (guard_canon ds hg ha hv)
+
+-- non-vacuity: the witness of C08.short_list satisfies the guards on the dataset itself
+example : DsG wShort ∧ AttrsKeys wShort.attrs ∧ VarsKeys wShort.children :=
+  ⟨⟨⟨⟨by decide, rfl⟩, trivial⟩, by decide, by unfold NoDot; decide, (by intro e h; cases h), by decide⟩, trivial,
+   ⟨⟨trivial, trivial⟩, trivial⟩⟩
+
+/-! ### round 7b: flat AND nested containers mixed over a whole tree -/
+
+/-- **mixed style, whole tree, any parsed dict**: a variable below the top level may have a flat container `s.a { … }`, a
+    nested one `s { a { … } }`, both, or none — in any order, next to strangers and NC_GLOBAL/DODS_EXTRA anywhere.  With
+    `A0` = the parsed dict without the dict-valued NC_GLOBAL/DODS_EXTRA and `A1` = `A0` without the flat containers of the
+    variables below the top level: every variable holds its flat container (`flatI A0`: nothing for a top-level variable,
+    whose flat id IS its nested one) updated with the container its nested path spells in `A1` minus its children's
+    containers (`takenVars A1`), on a common name the nested one wins; what is left of `A1` at the top level becomes global.
+    Guards, exactly: sibling names distinct at every level; top-level names dot-free and id texts pairwise distinct
+    (`C08_flat_ids_distinct` gives the latter from dot-free names at every level); no leftover container named like the
+    dataset.  `C08_foreign_nested` is the case without flat containers, `C08_placement_both` the single visit. -/
+theorem C08_foreign_mixed (name : Text) (cs : List Var) (A : Dict)
+    (hd : VarsDistinct cs) (hn : (cs.map Var.name).Nodup) (hdot : ∀ v ∈ cs, '.' ∉ v.name)
+    (hids : ((visitIds cs).map dotted).Nodup)
+    (hself : ∀ e, dget (stripKids (popAll (A.filter notGlobal) (deepKeys (visitIds cs))) cs) name ≠ some (.dict e)) :
+    addAttributes name cs A = .ok (mixedExpected cs A) :=
+  mixed_attach name cs A hd hn hdot hids hself
+
+/-- **mixed style, no guard on the dataset's name** (the most general whole-tree statement about `add_attributes`): the
+    dataset node is visited last with its own name as id; a leftover CONTAINER named like the dataset is merged into the
+    dataset's attributes (`finalGlobals`), anything else named like it stays a global attribute.  Remaining hypotheses:
+    sibling names distinct, top-level names dot-free, id texts pairwise distinct — all three follow from distinct,
+    dot-free sibling names (`C08_flat_ids_distinct`), i.e. they hold for every dataset pydap can build. -/
+theorem C08_foreign_mixed_total (name : Text) (cs : List Var) (A : Dict)
+    (hd : VarsDistinct cs) (hn : (cs.map Var.name).Nodup) (hdot : ∀ v ∈ cs, '.' ∉ v.name)
+    (hids : ((visitIds cs).map dotted).Nodup) :
+    addAttributes name cs A = .ok
+      ⟨finalGlobals (mergeGlobals A []) (stripKids (popAll (A.filter notGlobal) (deepKeys (visitIds cs))) cs) name,
+       (mixedExpected cs A).vars⟩ :=
+  mixed_attach_total name cs A hd hn hdot hids
+
+-- a container named like the dataset `d` is merged into the globals; a plain entry named like it stays
+example : addAttributes "d".toList exTmpl [("d".toList, .dict [("t".toList, .sc (.str "x".toList))]), ("g".toList, .sc (.num "1".toList false))]
+    = .ok ⟨[("t".toList, .sc (.str "x".toList)), ("g".toList, .sc (.num "1".toList false))],
+           [(["b".toList], []), (["s".toList, "a".toList], []), (["s".toList], [])]⟩ :=
+  (C08_foreign_mixed_total _ _ _ exTmpl_distinct.1 exTmpl_distinct.2 (by decide) (by decide)).trans rfl
+
+/-- **mixed style, from the text** (parse + attach composed) -/
+theorem C08_foreign_mixed_text (name : Text) (cs : List Var) (kw w0 w1 : Text) (its : List FItem) (trail : Text)
+    (hkw : lower kw = "attributes".toList) (h0 : Ws w0) (h1 : Ws w1) (hok : FItemsOk its)
+    (hd : VarsDistinct cs) (hn : (cs.map Var.name).Nodup) (hdot : ∀ v ∈ cs, '.' ∉ v.name)
+    (hids : ((visitIds cs).map dotted).Nodup)
+    (hself : ∀ e, dget (stripKids (popAll ((denoteItems [] (eraseItems its)).filter notGlobal)
+      (deepKeys (visitIds cs))) cs) name ≠ some (.dict e)) :
+    (dasParse (ftext kw w0 w1 its trail)).toOption.map (addAttributes name cs)
+      = some (.ok (mixedExpected cs (denoteItems [] (eraseItems its)))) := by
+  rw [fparse kw w0 w1 its trail hkw h0 h1 hok]
+  simp [Except.toOption, mixed_attach name cs _ hd hn hdot hids hself]
+
+/-- **the mixed outcome, as lookups**: a variable listed with the container `t` its nested path takes holds its flat
+    container updated with `t`; which `t`: with a container under its name in the parent's container, that container minus
+    its children's containers (children looked up inside it), otherwise none for the whole subtree. -/
+theorem C08_mixed_lookup (I : List Text → Dict) (N : Dict) (cs : List Var) :
+    (∀ p t, (p, t) ∈ takenVars N cs → (p, optUpd (I p) t) ∈ applyI I (takenVars N cs))
+    ∧ (∀ v ∈ cs, ∀ E, dget N v.name = some (.dict E) →
+        ([v.name], some (stripKids E v.children)) ∈ takenVars N cs
+        ∧ ∀ q t, (q, t) ∈ takenVars E v.children → (v.name :: q, t) ∈ takenVars N cs)
+    ∧ (∀ v ∈ cs, (∀ E, dget N v.name ≠ some (.dict E)) →
+        ([v.name], none) ∈ takenVars N cs ∧ ∀ p ∈ walkVars [] v.children, (v.name :: p, none) ∈ takenVars N cs) :=
+  ⟨fun p t h => applyI_mem I _ p t h, fun v hv E h => taken_some N cs v hv E h, fun v hv h => taken_none N cs v hv h⟩
+
+-- non-vacuity: `s { a { x } }`, `s.a { y }`, `b { u }` on the tree `s {a}, b`: `s.a` holds y then x, `s` nothing, `b` u
+example : addAttributes "d".toList exTmpl exMixedA = .ok (mixedExpected exTmpl exMixedA) :=
+  C08_foreign_mixed _ _ _ exTmpl_distinct.1 exTmpl_distinct.2 (by decide) (by decide)
+    (by intro e he
+        have : dget (stripKids (popAll (exMixedA.filter notGlobal) (deepKeys (visitIds exTmpl))) exTmpl) "d".toList = none := rfl
+        rw [this] at he; cases he)
+example : mixedExpected exTmpl exMixedA =
+    ⟨[], [(["b".toList], [("u".toList, .sc (.num "1".toList false))]),
+          (["s".toList, "a".toList], [("y".toList, .sc (.num "2".toList false)), ("x".toList, .sc (.num "1".toList false))]),
+          (["s".toList], [])]⟩ := by rfl
 
 /-! ### the tie by translation: the *source text* of `type_convert` / `get_type` names the model's types
 
